@@ -65,10 +65,18 @@ def _expected(Fn, Y, Lab, val):
 @st.composite
 def diagram_case(draw, max_cols=60):
     tc = draw(tables.table_case(max_rows=12, max_cols=max_cols, min_cols=2, with_cov=True))
+    if draw(st.integers(0, 5)) == 0:
+        tc["rows"] = draw(st.sampled_from([49, 98, 103, 107, 161]))  # tall tables (high orders, many channels)
+        tc["cols"] = min(tc["cols"], 12)
     tc["covscale"] = draw(st.sampled_from([1.0, 1.0, 1e3, 1e5]))  # some poles with a standard deviation of the order of the frequency itself
-    return {"table": tc, "hide": draw(st.booleans()), "freqlim": draw(st.one_of(st.none(), st.tuples(st.floats(0, 5), st.floats(6, 30)).map(list))),
+    return {"table": tc, "hide": draw(st.booleans()), "hideform": draw(st.sampled_from(["bool", "bool", "npbool", "int"])), "freqlim": draw(st.one_of(st.none(), st.tuples(st.floats(0, 5), st.floats(6, 30)).map(list))),
             "plab": [0.3, 0.5, 0.7, 0.5, 0.0, 1.0][(draw(st.integers(0, 2**20)) + tc["seed"] // 5) % 6], "which": ["function", "SSIcov", "SSIdat", "pLSCF"][(draw(st.integers(0, 2**20)) + tc["seed"] // 11) % 4],  # balanced across small runs
             "ordmin": draw(st.integers(0, 3))}
+
+
+def _hide(case):
+    """the hide_poles switch as a Python bool, a numpy bool or an integer"""
+    return {"bool": bool, "npbool": np.bool_, "int": int}[case.get("hideform", "bool")](case["hide"])
 
 
 def _labels(case, t):
@@ -112,10 +120,10 @@ def judge_stab(case):
         sut(plot.cluster_plot, other, t["Xi"] * 0.5, np.ones_like(Lab), ordmin=0, freqlim=None, hide_poles=False)
         j.tag("earlier_figure_open")
     if case["which"] == "function":
-        out = sut(plot.stab_plot, Fn.copy(), Lab.copy(), 1, Fn.shape[1] - 1, ordmin=case["ordmin"], freqlim=fl, hide_poles=case["hide"], Fn_cov=None if t["Fn_cov"] is None else t["Fn_cov"].copy())
+        out = sut(plot.stab_plot, Fn.copy(), Lab.copy(), 1, Fn.shape[1] - 1, ordmin=case["ordmin"], freqlim=fl, hide_poles=_hide(case), Fn_cov=None if t["Fn_cov"] is None else t["Fn_cov"].copy())
     else:
         alg = _make_alg(case, t, Lab)
-        out = sut(alg.plot_stab, freqlim=fl, hide_poles=case["hide"])
+        out = sut(alg.plot_stab, freqlim=fl, hide_poles=_hide(case))
     if not j.check(not raised(out), "stab-raises", lambda: f"{out!r}"):
         plt.close("all")
         return j
@@ -153,10 +161,10 @@ def judge_cluster(case):
         sut(plot.stab_plot, other, np.ones_like(Lab), 1, Fn.shape[1] - 1, ordmin=0, freqlim=None, hide_poles=False)
         j.tag("earlier_figure_open")
     if case["which"] == "function":
-        out = sut(plot.cluster_plot, Fn.copy(), Xi.copy(), Lab.copy(), ordmin=case["ordmin"], freqlim=fl, hide_poles=case["hide"])
+        out = sut(plot.cluster_plot, Fn.copy(), Xi.copy(), Lab.copy(), ordmin=case["ordmin"], freqlim=fl, hide_poles=_hide(case))
     else:
         alg = _make_alg(case, t, Lab)
-        out = sut(alg.plot_cluster, freqlim=fl, hide_poles=case["hide"])
+        out = sut(alg.plot_cluster, freqlim=fl, hide_poles=_hide(case))
     if not j.check(not raised(out), "cluster-raises", lambda: f"{case['which']}.plot_cluster: {out!r}"):
         plt.close("all")
         return j
@@ -181,6 +189,7 @@ def cmif_case(draw):
     n = draw(st.integers(2, 6))
     return {"n": n, "nf": draw(st.integers(8, 300)), "nSv": draw(st.one_of(st.just("all"), st.integers(1, n - 1))), "fs": draw(st.sampled_from([1.0, 100.0, 37.0])),
             "seed": draw(st.integers(0, 2**32 - 1)), "freqlim": draw(st.one_of(st.none(), st.sampled_from([[0.1, 0.4], [0.25, 0.45], [0.0, 0.1], [0.3, 0.5]]))), "via_class": draw(st.booleans()),
+            "deadline": draw(st.integers(0, 4)) == 0,
             "range": draw(st.sampled_from([0, 0, 8, 16, 30])), "level": draw(st.sampled_from([1.0, 1.0, 1e-12, 1e9]))}  # decades between consecutive singular values; overall level
 
 
@@ -195,6 +204,9 @@ def judge_cmif(case):
         sv = sv * (10.0 ** (-float(case["range"]) * np.arange(n)))[:, None]
         j.tag("wide-dynamic-range")
     sv = sv * case.get("level", 1.0)
+    if case.get("deadline"):
+        sv[-1, :: max(2, nf // 5)] = 0.0  # a dead channel: the last singular value is exactly zero at some lines (drawn at -inf dB)
+        j.tag("exact-zero-singular-value")
     S_val = np.zeros((n, n, nf))
     for k in range(n):
         S_val[k, k, :] = sv[k]
